@@ -8,11 +8,13 @@
    records the coverage percentage ([cov_batch]).  [hash] (v |-> internal_hash(str(v))) is an arbitrary function.
    Cells ([val]): a Python str [V s], or what pandas stores for a cell the parser left as None (ob-vw:
    absent namespace): [NaN] when the batch's column also holds strings, [PyNone] when the whole column of
-   the batch is None ([frame_batch]).  As in the code: nan/None are never missing-value symbols and the
+   the batch is None ([frame_raw]).  As in the code: nan/None are never missing-value symbols and the
    coverage denominator is the row count; the sketch takes truthy values ('' and None are skipped, nan is
    hashed as 'nan'); counter and rare-value machine treat nan and None as two further keys.  All theorems
-   below hold for arbitrary frame contents; split independence of PARSED rows needs None-free histories
-   (C13_split_indep_parsed) and fails with None cells (C13_none_cells_refuted). *)
+   below hold for arbitrary frame contents.  Parsed rows: through the pipeline absent fields are filled with ''
+   ([frame_batch], fix 2ffc0d7) and every history is split independent (C13_split_indep_parsed); for direct calls on
+   pandas' own frame ([frame_raw]) it needs None-free histories (C13_split_indep_direct) and fails otherwise
+   (C13_none_cells_refuted: function-level / pre-fix pipeline behaviour). *)
 From Coq Require Import List ZArith QArith Permutation.
 From Outrank Require Import Stats.Quality Stats.QualityProofs.
 Import ListNotations.
@@ -118,19 +120,40 @@ Theorem C13_symbols_split : forall c s,
   join c (split_on c s) = s /\ Forall (fun p => ~ In c p) (split_on c s).
 Proof. exact split_on_spec. Qed.
 
-(* parsed rows (cells = option str).  Without None cells the frame of a batch is the table of the cells'
-   strings, so the statistics of a history of parsed batches depend on the concatenation only *)
-Theorem C13_frame_none_free : forall b : list rrow, none_free b = true -> frame_batch b = lift b.
-Proof. exact frame_none_free. Qed.
+(* PARSED rows (cells = option str; None = a field absent from the line, e.g. a VW namespace).
+   Through the pipeline (compute_batch_ranking, fix 2ffc0d7) every batch frame is pd.DataFrame(rows).fillna(''):
+   [frame_batch] maps None to the empty string cell by cell, so the frames of a history concatenate to the filled
+   table and the statistics of EVERY history of parsed rows — None cells included — depend on the concatenation only *)
+Theorem C13_frames_fill : forall s : list (list rrow), concat (frames s) = fill (concat s).
+Proof. exact frames_fill. Qed.
 
 Theorem C13_split_indep_parsed : forall (hash : val -> N) cap edges bound thr ncols (s1 s2 : list (list rrow)),
-  0 <= cap -> Forall (fun b => none_free b = true) s1 -> Forall (fun b => none_free b = true) s2 ->
-  concat s1 = concat s2 ->
+  0 <= cap -> concat s1 = concat s2 ->
   (forall j, card hash cap j (frames s1) = card hash cap j (frames s2)) /\
   (forall j, counter bound j (frames s1) = counter bound j (frames s2) /\
              hist edges bound j (frames s1) = hist edges bound j (frames s2)) /\
   Permutation (rare thr ncols (frames s1)) (rare thr ncols (frames s2)) /\
   (forall k, get key_eq_dec (rare thr ncols (frames s1)) k = get key_eq_dec (rare thr ncols (frames s2)) k).
+Proof. exact parsed_split_indep. Qed.
+
+Theorem C13_parsed_card : forall (hash : val -> N) cap j (s : list (list rrow)), 0 <= cap ->
+  card hash cap j (frames s) = card_spec hash cap (column j (fill (concat s))).
+Proof. exact parsed_card. Qed.
+
+(* DIRECT calls of the statistics functions on pd.DataFrame(rows) (= the pipeline before fix 2ffc0d7): [frame_raw]
+   is pandas' frame, nan next to strings, None in an all-None batch column.  Without None cells it is the table of the
+   cells' strings and split independence holds; with None cells it fails (C13_none_cells_refuted) *)
+Theorem C13_frame_none_free : forall b : list rrow, none_free b = true -> frame_raw b = lift b.
+Proof. exact frame_none_free. Qed.
+
+Theorem C13_split_indep_direct : forall (hash : val -> N) cap edges bound thr ncols (s1 s2 : list (list rrow)),
+  0 <= cap -> Forall (fun b => none_free b = true) s1 -> Forall (fun b => none_free b = true) s2 ->
+  concat s1 = concat s2 ->
+  (forall j, card hash cap j (frames_raw s1) = card hash cap j (frames_raw s2)) /\
+  (forall j, counter bound j (frames_raw s1) = counter bound j (frames_raw s2) /\
+             hist edges bound j (frames_raw s1) = hist edges bound j (frames_raw s2)) /\
+  Permutation (rare thr ncols (frames_raw s1)) (rare thr ncols (frames_raw s2)) /\
+  (forall k, get key_eq_dec (rare thr ncols (frames_raw s1)) k = get key_eq_dec (rare thr ncols (frames_raw s2)) k).
 Proof. exact raw_split_indep. Qed.
 
 (* with None cells the faithful model is NOT split independent (rows None, a, None in one batch, as
@@ -138,10 +161,10 @@ Proof. exact raw_split_indep. Qed.
 Theorem C13_none_cells_refuted :
   exists (hash : val -> N) (s1 s2 s3 : list (list rrow)),
     concat s1 = concat s2 /\ concat s1 = concat s3 /\
-    card hash 262144 0 (frames s1) = Some 2%nat /\ card hash 262144 0 (frames s2) = Some 1%nat /\
-    hist [0; 1] 30000 0 (frames s1) = [2; 1] /\ hist [0; 1] 30000 0 (frames s3) = [3; 0] /\
-    rare 1 1 (frames s1) = [((0%nat, V [97%N]), 1)] /\
-    rare 1 1 (frames s3) = [((0%nat, PyNone), 1); ((0%nat, V [97%N]), 1); ((0%nat, NaN), 1)].
+    card hash 262144 0 (frames_raw s1) = Some 2%nat /\ card hash 262144 0 (frames_raw s2) = Some 1%nat /\
+    hist [0; 1] 30000 0 (frames_raw s1) = [2; 1] /\ hist [0; 1] 30000 0 (frames_raw s3) = [3; 0] /\
+    rare 1 1 (frames_raw s1) = [((0%nat, V [97%N]), 1)] /\
+    rare 1 1 (frames_raw s3) = [((0%nat, PyNone), 1); ((0%nat, V [97%N]), 1); ((0%nat, NaN), 1)].
 Proof. exact none_cells_refuted. Qed.
 
 (* before fix 549e068 split independence and the report specification fail *)
@@ -171,5 +194,8 @@ Print Assumptions C13_mean_nonneg.
 Print Assumptions C13_symbols_split.
 Print Assumptions C13_prefix_refuted.
 Print Assumptions C13_frame_none_free.
+Print Assumptions C13_split_indep_direct.
+Print Assumptions C13_frames_fill.
 Print Assumptions C13_split_indep_parsed.
+Print Assumptions C13_parsed_card.
 Print Assumptions C13_none_cells_refuted.
